@@ -424,6 +424,8 @@ class Maker:
       return collections.defaultdict(list, {k: self(v) for k, v in d['ddict']})
     if 'hostile' in d:
       return stubmod.Hostile()
+    if 'novalue' in d:
+      return NO_VALUE   # the sentinel itself, explicitly stored as a value
     if 'const' in d:
       return CONST_POOL[d['const'] % len(CONST_POOL)]
     if 'sym' in d:
